@@ -46,7 +46,7 @@ Nil    == "nil"
 BadKey == "bad"
 Window == 20                       \* common/vote.go: blockDiff
 
-Range(s) == {s[i] : i \in 1..Len(s)}
+Ran(s) == {s[i] : i \in 1..Len(s)}
 Thr(n)   == (n * 2) \div 3 + 1
 DelId(c) == "del:" \o c            \* sha256(key || "delete")
 AllIds   == Ids \cup {DelId(c) : c \in Cands}
@@ -84,7 +84,7 @@ IdxOf(B, id) ==
 VoteOp(B, h, id, from) ==
   LET L == Live(B, h)
       i == IdxOf(L, id)
-  IN  IF i # 0 /\ from \in Range(L[i].voters)
+  IN  IF i # 0 /\ from \in Ran(L[i].voters)
       THEN [n |-> Len(L[i].voters), bl |-> B]     \* early return: nothing is saved, expired ballots stay
       ELSE IF i # 0
       THEN [n  |-> Len(L[i].voters) + 1,
@@ -125,7 +125,7 @@ AlphabetUpdateR(S, id, lst, h) ==
   LET from == Invoker(S)
   IN  IF Len(lst) = 0 THEN FaultR
       ELSE IF from = Nil THEN FaultR
-      ELSE IF BadKey \in Range(lst) THEN FaultR
+      ELSE IF BadKey \in Ran(lst) THEN FaultR
       ELSE Voting(h, id, from,
              LAMBDA B : [Keep EXCEPT !.ballots = B, !.alpha = lst,
                                      !.ntf = <<Ntf("AlphabetUpdate", id, Nil, Nil, 0, lst)>>])
@@ -203,7 +203,7 @@ Spec == Init /\ [][Next]_vars
 \* at most one ballot per id is ever stored (so "the first ballot with this id" is "the" ballot)
 Inv_OneBallotPerId == \A i, j \in 1..Len(ballots) : ballots[i].id = ballots[j].id => i = j
 \* a stored ballot never holds a full quorum of the list it was collected under ... unless the list shrank
-Inv_NoDupVoters == \A i \in 1..Len(ballots) : Cardinality(Range(ballots[i].voters)) = Len(ballots[i].voters)
+Inv_NoDupVoters == \A i \in 1..Len(ballots) : Cardinality(Ran(ballots[i].voters)) = Len(ballots[i].voters)
 
 -----------------------------------------------------------------------------
 (***************************************************************************)
@@ -219,7 +219,7 @@ Inv_NoDupVoters == \A i \in 1..Len(ballots) : Cardinality(Range(ballots[i].voter
 RdEmpty == [vs |-> {}, last |-> 0, taint |-> FALSE]
 RdInit  == [id \in AllIds |-> RdEmpty]
 
-Members(e) == e.S \cap Range(alpha)
+Members(e) == e.S \cap Ran(alpha)
 InQuant(e) == Cardinality(Members(e)) <= 1           \* every voter signs its own transaction
 Member(e)  == IF Members(e) = {} THEN Nil ELSE CHOOSE k \in Members(e) : TRUE
 IsVote(e)  == \/ e.act \in {"cheque", "alphabetUpdate", "setConfig"}
@@ -262,7 +262,7 @@ C17_RejectedInert(e) == IsVote(e) /\ (Member(e) = Nil \/ e.res = "FAULT") => Ine
 \* a well-formed vote of an Alphabet key is accepted
 WellFormed(e) ==
   CASE e.act = "cheque"         -> e.amt >= 0 /\ e.amt <= gasC
-    [] e.act = "alphabetUpdate" -> Len(e.lst) > 0 /\ BadKey \notin Range(e.lst)
+    [] e.act = "alphabetUpdate" -> Len(e.lst) > 0 /\ BadKey \notin Ran(e.lst)
     [] e.act = "setConfig"      -> e.key # "empty"
     [] OTHER                    -> TRUE
 C17_MemberAccepted(e) == IsVote(e) /\ InQuant(e) /\ Member(e) # Nil /\ WellFormed(e) => e.res = "HALT"
